@@ -6,7 +6,7 @@ from vlib import to_tangelo_gate, cyc_to_complex, frac_str
 from fractions import Fraction
 
 CLAIM = {
- "text": "Proof (Lean 4), partial: the documented operation of every gate name (Gate.toOp / Op.sem, arbitrary control lists, arbitrary positions, any register size) is the model; proved for it: semantics of a gate list is the left fold and composes under concatenation; every operation preserves the total probability (isometry on Fin n -> Bool registers) so that exact frequencies sum to one; the amplitude-index -> bitstring conversion is a bijection that lists qubit 0 first for the advertised order and its mirror for the other order; the statevector re-ordering between the two advertised orders is an involution. The simulators themselves (cirq, sympy) are NOT verified: they are tied to the model by an exact-simulation correspondence check - every amplitude and every frequency of random circuits over the full gate set (multi-controls, edge angles, optional rational initial statevector) is compared with the model's exact result in Q(zeta_16); sampled mode is checked for support, totals and key order only.",
+ "text": "Proof (Lean 4), partial: the documented operation of every gate name (Gate.toOp / Op.sem, arbitrary control lists, arbitrary positions, any register size) is the model; proved for it: semantics of a gate list is the left fold and composes under concatenation; every operation of the gate set (any control list, swaps, XX) whose qubits are distinct and inside an n-qubit register preserves the sum of |amplitude|^2 over the 2^n basis states, for every n and every state, over any commutative star ring with the documented constants (2x2 unitarity of every gate matrix + a pairing argument over the basis states), hence every circuit does, and for the executable amplitudes Q(zeta_16) the state prepared from |0...0> has norm 1 so exact frequencies sum to one; the amplitude-index -> bitstring conversion is injective below 2^n and lists qubit 0 first for the advertised order and its mirror for the other order; the laws assumed of the constants (Consts.Laws, Consts.StarLaws) are proved for the executable constants. The simulators themselves (cirq, sympy) are NOT verified: they are tied to the model by an exact-simulation correspondence check - every amplitude and every frequency of random circuits over the full gate set (multi-controls, edge angles, optional rational initial statevector) is compared with the model's exact result in Q(zeta_16); sampled mode is checked for support, totals and key order only.",
  "note": "Trusted: Lean kernel + propext/Classical.choice/Quot.sound, cirq and sympy simulators (compared, not verified), numpy; float64 rounding (tolerance 1e-8 on amplitudes); scipy sampler (only support/total checked). Frequencies within 1e-13 of the 1e-10 threshold are discarded.",
  "technique": "Lean 4 theorems on the gate-semantics model (fold/composition, isometry, index-bitstring bijection) + exact differential simulation against cirq and sympy"}
 
